@@ -3,11 +3,13 @@ META = dict(
     level="other",
     claim="The -E token printer (real print_tokens/need_space) writes every spelling once and in order, starts a new line exactly for tokens that begin a line, keeps source white space, and writes a separator between any two adjacent tokens whose concatenated spellings an independent C11 6.4 maximal-munch lexer would not split after the first token — for every ordered pair from a 26-spelling alphabet (punctuators incl. digraph parts, identifiers, pp-numbers incl. an exponent stem, a string literal and an encoding prefix) and all flag combinations.",
     note="Bounded by the spelling alphabet; only adjacent pairs (the predicate is pairwise). Assumed: fprintf is the ghost writer. Not covered: that the real tokenizer agrees with the spec lexer, white-space flag propagation through macro expansion, idempotence of -E on its own output.",
-    functions=["main.c:print_tokens", "main.c:need_space"],
+    functions=["main.c:print_tokens", "main.c:need_space", "preprocess.c:preprocess"],
     trusted_base=["CBMC 6.11", "spec lexer in harness/C19/print.c"],
     assumptions=["ghost fprintf"],
     explanation="bounded symbolic harness on the real token printer against a spec lexer",
 )
 def jobs(tier):
     return [Job(name="print_tokens-pairs", src="print.c", group="C19.1 separator", mode="plain", cut=["error", "error_tok", "error_at", "verror_at", "warn_tok"], units=[],
-                unwind=64, timeout=600, replay=None, bounded="26-spelling alphabet, adjacent pairs", sample="print_tokens on every ordered pair of spellings with symbolic at_bol/has_space")]
+                unwind=64, timeout=600, replay=None, bounded="26-spelling alphabet, adjacent pairs", sample="print_tokens on every ordered pair of spellings with symbolic at_bol/has_space/origin"),
+            Job(name="preprocess-keeps-tokens", src="ppkeep.c", group="C19.2 printed tokens", mode="plain", cut=["error", "error_tok", "error_at", "verror_at", "warn_tok"], units=["type.c"],
+                redirect={"preprocess2": "stub_preprocess2", "convert_pp_tokens": "stub_convert_pp_tokens"}, unwind=8, timeout=300, replay=None, bounded="one four-token list", sample="preprocess() on  p \"a\" \"b\" ;")]
